@@ -246,7 +246,10 @@ func (c *Conn) Read(b []byte) (int, error) {
 	if len(b) == 0 {
 		return 0, nil
 	}
-	tmp := make([]byte, 16384)
+	var tmp []byte
+	if c.scanning {
+		tmp = make([]byte, 16384)
+	}
 	for c.scanning {
 		win := c.buf
 		if len(win) > MaxPadding+MagicLen {
